@@ -289,6 +289,17 @@ def g_polygons2d(ctx, rng, i):
     if is_tri:
         # the generic polygon code path on the same triangle
         _try(g.Polygon(*[g.Point(h) for h in H]).contains, g.PointCollection(qs))
+    # the polygon moved after it has been queried (objects returned by the library: translation, integer affine map), same questions
+    t = gen.coords(rng, (2,), 9, "int")
+    M = np.eye(3, dtype=int)
+    M[:2, :2] = gen.invertible_int_matrix(rng, 2, 2)
+    M[:2, 2] = t
+    for mv, img in ((lambda: poly + g.Point(*t.tolist()), lambda q: q + np.append(t, 0) * q[..., -1:]), (lambda: g.Transformation(M) * poly, lambda q: q @ M.T)):
+        mp = _try(mv)
+        if mp is not None and hasattr(mp, "contains"):
+            _try(mp.contains, g.PointCollection(img(qs)))
+            _try(mp.contains, g.PointCollection(qs))
+            _try(mp.contains, g.Point(img(H[0])))
     if i % 5 == 0:
         # collections of polygons (same vertex count) against a point and a point collection
         V2 = [v + np.array([7, -2]) for v in V]
@@ -325,6 +336,13 @@ def g_polygons3d(ctx, rng, i):
     _try(poly.contains, g.PointCollection(off))
     _try(poly.contains, g.Point(on[int(rng.integers(0, len(on)))]))
     _try(poly.contains, g.Point(off[0]))
+    # moved out of its plane after it has been queried
+    t3 = gen.nonzero_vec(rng, 3, 4)
+    for mv in (lambda: poly + g.Point(*t3.tolist()), lambda: g.translation(*t3.tolist()) * poly):
+        mp = _try(mv)
+        if mp is not None and hasattr(mp, "contains"):
+            _try(mp.contains, g.PointCollection(on + np.append(t3, 0)))
+            _try(mp.contains, g.PointCollection(on))
     _try(poly.contains, g.Point(np.append(e1, 0)))
     if i % 4 == 0 and len(V) == 4:
         V3 = [v + nrm for v in V]
